@@ -29,6 +29,8 @@
 // (modes buffer/file/socket) never sends a non-empty array of multi-byte elements down that path;
 // stratum B (modes *_hostorder_arrays) always does, at least once per sequence.
 #include "common/runner.h"
+#include <pthread.h>
+#include <signal.h>
 #include <thread>
 #include <atomic>
 #include <memory>
@@ -813,6 +815,19 @@ static void run_buffer(vf::Ctx& c, const Seq& q)
 		if (!mm.bad && rd.ptr() != rd.end()) mm.set("read.consumed", vf::fmt("%d bytes left after reading every item back", rd.length()));
 	}
 	if (mm.bad) c.fail(mm.key, "StreamBufferReader: " + mm.detail);
+	// 8-bit values that are bytes of the buffer itself, appended across its growth boundaries
+	if (c.rng.chance(0.1)) {
+		StreamBuffer b;
+		std::string m;
+		int n = c.rng.range(20, 300);
+		for (int i = 0; i < n; i++) {
+			if (m.size() && c.rng.chance(0.4)) { size_t k = c.rng.below((uint32_t)m.size()); char v = m[k]; if (c.rng.chance(0.5)) b << b[(int)k]; else b << (char&)b[(int)k]; m += v; }
+			else { byte v = (byte)c.rng.below(256); b << v; m += (char)v; }
+		}
+		ByteArray& ba = b;
+		if (ba.length() != (int)m.size() || memcmp(ba.data(), m.data(), m.size()) != 0) c.fail("write.byte-of-own-buffer", vf::fmt("%d appends, a third of them bytes of the buffer itself: content differs from the model", n));
+		c.count("buffer.self_byte_histories");
+	}
 }
 
 // ---------------------------------------------------------------- backend: File
@@ -848,6 +863,23 @@ static void run_file(vf::Ctx& c, const Seq& q)
 			mm.set("read.consumed", vf::fmt("file position %lld after reading every item back, file has %d bytes", (long long)f.position(), (int)q.ref.size()));
 	}
 	if (mm.bad) c.fail(mm.key, "File: " + mm.detail);
+	// a value written over an existing one through File::RW lands where the file pointer is and nowhere else
+	if (!mm.bad && got.size() >= 4 && c.rng.chance(0.25)) {
+		size_t pos = c.rng.below((uint32_t)(got.size() - 3));
+		c.op(vf::fmt("File(RW) seek(%d) << int (big-endian)", (int)pos));
+		{
+			File f(path, File::RW);
+			if (!f) { c.inconclusive("file-open-rw"); return; }
+			f.setEndian(ENDIAN_BIG);
+			f.seek((Long)pos);
+			f << (int)0x11223344;
+		}
+		std::string want = got, now;
+		want[pos] = 0x11; want[pos + 1] = 0x22; want[pos + 2] = 0x33; want[pos + 3] = 0x44;
+		{ FILE* fp = fopen(ul.path.c_str(), "rb"); if (fp) { char buf[65536]; size_t n; while ((n = fread(buf, 1, sizeof buf, fp)) > 0) now.append(buf, n); fclose(fp); } }
+		if (now != want) c.fail("write.rw-overwrite", vf::fmt("file of %d bytes, 4 bytes written at offset %d through File::RW: file now has %d bytes%s", (int)got.size(), (int)pos, (int)now.size(), now.size() == want.size() ? ", content differs" : ""));
+		c.count("file.rw_overwrites");
+	}
 }
 
 // ---------------------------------------------------------------- backend: Socket over an AF_UNIX socketpair
@@ -1094,8 +1126,63 @@ static void mode_file_b(vf::Ctx& c) { run_case(c, B_FILE, 1); }
 static void mode_socket_b(vf::Ctx& c) { run_case(c, B_SOCKET, 1); }
 static void mode_socket_frag(vf::Ctx& c) { run_case(c, B_SOCKET, 1, true); }
 
+// a large array written through Socket << while the peer holds back, and one signal (handler without SA_RESTART) cutting the
+// blocked send() short after a partial transfer: the bytes on the wire are still the array's canonical bytes
+static void mode_socket_intr(vf::Ctx& c)
+{
+	// host byte order only: there the array goes out as one block (in the other order the library sends element by element,
+	// and a signal during a 4-byte send() that has transferred nothing yet is an ordinary EINTR failure, not a short count)
+	int ord = c.rng.chance(0.5) ? O_NATIVE : (host_is_little() ? O_LITTLE : O_BIG);
+	int n = c.rng.range(200000, 600000);   // ints: 0.8 - 2.4 MB, well above the socket buffer
+	bool asArray = c.rng.chance(0.7);
+	c.desc(vf::fmt("Socket << %s of %d ints, order %s, the first send() interrupted by a signal after a partial transfer", asArray ? "Array<int>" : "raw block", n, ONAME[ord]));
+	Array<int> a(n);
+	uint32_t x = (uint32_t)c.rng.next();
+	for (int i = 0; i < n; i++) { x = x * 1664525u + 1013904223u; a[i] = (int)x; }
+	std::string want((size_t)n * 4, '\0');
+	for (int i = 0; i < n; i++) { uint32_t v = (uint32_t)a[i]; for (int k = 0; k < 4; k++) want[(size_t)i * 4 + k] = (char)(msb_first(ord) ? v >> (24 - 8 * k) : v >> (8 * k)); }
+	if (!asArray && swapped(ord)) { asArray = true; }
+	int sv[2];
+	if (socketpair(AF_UNIX, SOCK_STREAM, 0, sv) != 0) { c.inconclusive("socketpair"); return; }
+	pthread_t writer = pthread_self();
+	std::string wire;
+	std::atomic<int> signalled(0);
+	std::thread rd([&]() {
+		char buf[65536];
+		int last = -1, stable = 0;
+		for (int i = 0; i < 1000 && stable < 6; i++) {
+			int avail = 0;
+			ioctl(sv[1], FIONREAD, &avail);
+			if (avail >= 65536 && avail == last) stable++; else stable = 0;
+			last = avail;
+			struct timespec ts = {0, 5000000}; nanosleep(&ts, 0);
+		}
+		if (stable >= 6) { pthread_kill(writer, SIGUSR2); signalled = 1; }
+		for (;;) { ssize_t k = read(sv[1], buf, sizeof buf); if (k <= 0) break; wire.append(buf, k); }
+	});
+	{
+		Socket s(sv[0]);
+		s.setEndian(asl_endian(ord));
+		if (asArray) s << a;
+		else s.write(a.data(), n * 4);
+		s.close();
+	}
+	rd.join();
+	close(sv[1]);
+	if (wire != want) {
+		size_t k = 0;
+		while (k < wire.size() && k < want.size() && wire[k] == want[k]) k++;
+		c.fail("write.interrupted-send", vf::fmt("%d bytes on the wire, %d expected, first difference at byte %d", (int)wire.size(), (int)want.size(), (int)k));
+	}
+	c.count(signalled ? "sends_interrupted_after_partial_transfer" : "interrupt_planned_but_writer_never_blocked");
+	c.evals(n);
+	c.distinct(vf::mix(x, (uint64_t)ord));
+	if (c.want_sample()) c.sample(c.curdesc());
+}
+
 int main(int argc, char** argv)
 {
+	{ struct sigaction sa; memset(&sa, 0, sizeof sa); sa.sa_handler = [](int) {}; sigemptyset(&sa.sa_mask); sa.sa_flags = 0; sigaction(SIGUSR2, &sa, 0); }
 	vf::Runner R;
 	R.add("buffer", mode_buffer, "StreamBuffer -> reference bytes -> StreamBufferReader (no multi-byte arrays on the host-order path)");
 	R.add("file", mode_file, "File << ; POSIX read ; File >> (no multi-byte arrays on the host-order path)");
@@ -1103,6 +1190,7 @@ int main(int argc, char** argv)
 	R.add("buffer_hostorder_arrays", mode_buffer_b, "as buffer, every sequence has a non-empty multi-byte array written in host order");
 	R.add("file_hostorder_arrays", mode_file_b, "as file, every sequence has a non-empty multi-byte array written in host order");
 	R.add("socket_hostorder_arrays", mode_socket_b, "as socket, every sequence has a non-empty multi-byte array written in host order");
+	R.add("socket_intr", mode_socket_intr, "a large Socket << cut short by a signal after a partial transfer");
 	R.add("socket_frag", mode_socket_frag, "reference bytes sent through the raw fd in small pieces with pauses (short reads) ; Socket >>");
 	return R.main(argc, argv);
 }
